@@ -528,6 +528,7 @@ def shards(tier, seed):
     out += [('b', i) for i in range(15) if i != 1]
     out += [('c3', i) for i in range(14)]
     out += [('c1', tag) for tag in FILE_TAGS + ('IGNORE+TS',)]
+    out += [('g', tag) for tag in FILE_TAGS + ('IGNORE', 'TIMESTAMP')]
     return out
 
 
@@ -583,6 +584,23 @@ def run_shard(spec, tier, seed, scratch):
         if lo == 0:
             stats.sample({'family': 'a', 'entry': ['DATA', '\\x4' + chr(0x85) + '1', 0, []],
                           'dumped': g_dump([mk_entry(('DATA', '\\x4\x851', 0, ()))])[2]})
+    elif fam == 'g':
+        tag = spec[1]
+        if tag == 'TIMESTAMP':
+            menu = [('TIMESTAMP', t) for t in [(2017, 1, 1, 0, 0, 0), (1, 1, 1, 0, 0, 0), (9999, 12, 31, 23, 59, 59),
+                                               (2020, 2, 29, 12, 30, 59)]]
+        elif tag == 'IGNORE':
+            menu = [('IGNORE', p) for p in paths_c(seed)]
+        else:
+            ps = [p for p in paths_c(seed) if not (tag == 'DIST' and '/' in p)]
+            menu = [(tag, p, sz, ck) for p in ps for sz, ck in ((0, CKSETS[0]), (7, CKSETS[2]))]
+        menu = [m for m in menu if not (m[0] != 'TIMESTAMP' and unrepresentable_surrogate(m[1]))]
+        for s1, s2 in itertools.permutations(menu, 2):
+            bad = check_reuse(s1, s2, stats)
+            stats.case(('g', s1, s2), True)
+            if bad:
+                _emit(stats, bad, {'family': 'g', 'specs': [s1, s2], 'sort': False})
+        stats.sample({'family': 'g', 'tag': tag, 'pairs': len(menu) * (len(menu) - 1)})
     elif fam == 'b':
         alpha = alphabet_b(seed)
         first = alpha[spec[1]]
@@ -685,9 +703,47 @@ def _spec_from_json(s):
     return (s[0], s[1], s[2], tuple(tuple(x) for x in s[3]))
 
 
+def check_reuse(spec1, spec2, stats):
+    """History on ONE entry object: dump, change every field to those of spec2 (same tag), dump again.
+    The second dump must be exactly what a fresh entry built from spec2 dumps to (and must re-load)."""
+    e = mk_entry(spec1)
+    _m, o1, t1 = g_dump([e])
+    fresh = mk_entry(spec2)
+    _m, of, tf = g_dump([fresh])
+    stats.evaluations += 1
+    stats.transitions += 3
+    if o1['kind'] == 'exc' or of['kind'] == 'exc':
+        stats.dontcare['g: a single dump raised (reported by family c)'] += 1
+        return []
+    tag = spec2[0]
+    if tag == 'TIMESTAMP':
+        e.ts = fresh.ts
+    elif tag == 'IGNORE':
+        e.path = fresh.path
+    else:
+        e.path = fresh.path
+        if tag == 'AUX':
+            e.aux_path = fresh.aux_path
+        e.size = fresh.size
+        e.checksums = dict(fresh.checksums)
+    _m, o2, t2 = g_dump([e])
+    stats.compared += 1
+    stats.outcomes['g:reuse/' + ('same' if t2 == tf else 'differs')] += 1
+    if o2['kind'] == 'exc':
+        return [(exc_sig('dump_raised', o2, reuse=True), f'second dump of a modified entry raised {o2["exc"]}')]
+    if t2 != tf:
+        return [({'check': 'dump_of_modified_entry_is_stale', 'tag': tag},
+                 f'entry dumped as {t1!a}, then changed to {spec_key(spec2)!a}: dumped as {t2!a}, a fresh entry '
+                 f'dumps as {tf!a}')]
+    return []
+
+
 def replay(case, scratch):
     stats = Stats()
     fam = case['family']
+    if fam == 'g':
+        bad = check_reuse(_spec_from_json(case['specs'][0]), _spec_from_json(case['specs'][1]), stats)
+        return [{'sig': sig, 'case': case, 'message': msg} for sig, msg in bad]
     if fam == 'd':
         bad = check_text_fixed_point(case['text'], stats)[0]
     else:
@@ -701,7 +757,7 @@ def replay(case, scratch):
 
 def finish(total, tier):
     errs = []
-    for f in 'abcde':
+    for f in 'abcdeg':
         if not total.counters.get('family_' + f):
             errs.append(f'vacuity: family {f} did not run')
     # '/' alone is skipped for every tag
